@@ -138,6 +138,9 @@ pub enum TyperError {
     /// String types should not appear in main language
     StringNotSupported(SourceLocation),
 
+    /// Literals with a 64-bit integer suffix have no type they can take
+    LongIntegerNotSupported(SourceLocation),
+
     /// A type modifier was used in a context where it is not allowed to be used
     ModifierNotSupported(ast::TypeModifier, SourceLocation, TypePosition),
 
@@ -816,6 +819,11 @@ impl CompileError for TyperExternalError {
             ),
             TyperError::StringNotSupported(loc) => w.write_message(
                 &|f| write!(f, "string may not be used"),
+                *loc,
+                Severity::Error,
+            ),
+            TyperError::LongIntegerNotSupported(loc) => w.write_message(
+                &|f| write!(f, "64-bit integer literals may not be used"),
                 *loc,
                 Severity::Error,
             ),
